@@ -85,6 +85,40 @@ Theorem C03_closest_point_in_bbox :
 Proof. exact closest_point_in_bbox. Qed.
 Print Assumptions C03_closest_point_in_bbox.
 
+(* GetClosestPointOnSegment ("every vertex is within 2 units of an input edge": the out-of-scanbeam repair of
+   AddNewIntersectNode snaps the intersection point onto a nearly horizontal edge with it): for |coordinates| <= 2^25 the
+   result is, per axis, within 1/2 + 2^-25 of the exact orthogonal projection of offPt onto the segment (parameter
+   clamped to [0,1]) -- hence less than one unit from the segment -- and the end points are fixed. *)
+From Coq Require Import Reals.
+From Clip Require Import proofs.Core_closest.
+Theorem C03_closest_point_accuracy_small :
+  forall offPt seg1 seg2,
+  pt_le (2 ^ 25) offPt -> pt_le (2 ^ 25) seg1 -> pt_le (2 ^ 25) seg2 ->
+  (px seg1 =? px seg2)%Z && (py seg1 =? py seg2)%Z = false ->
+  let r := GetClosestPointOnSegment offPt seg1 seg2 in
+  let t := proj_t offPt seg1 seg2 in
+  (Rabs (IZR (px r) - (IZR (px seg1) + t * IZR (px seg2 - px seg1))) <= / 2 + / IZR (2 ^ 25))%R /\
+  (Rabs (IZR (py r) - (IZR (py seg1) + t * IZR (py seg2 - py seg1))) <= / 2 + / IZR (2 ^ 25))%R.
+Proof. exact closest_point_accuracy_small. Qed.
+Print Assumptions C03_closest_point_accuracy_small.
+
+Theorem C03_closest_point_near_segment :
+  forall offPt seg1 seg2,
+  pt_le (2 ^ 25) offPt -> pt_le (2 ^ 25) seg1 -> pt_le (2 ^ 25) seg2 ->
+  (px seg1 =? px seg2)%Z && (py seg1 =? py seg2)%Z = false ->
+  let r := GetClosestPointOnSegment offPt seg1 seg2 in
+  exists t : R, (0 <= t <= 1)%R /\
+    (Rabs (IZR (px r) - (IZR (px seg1) + t * IZR (px seg2 - px seg1))) <= / 2 + / IZR (2 ^ 25))%R /\
+    (Rabs (IZR (py r) - (IZR (py seg1) + t * IZR (py seg2 - py seg1))) <= / 2 + / IZR (2 ^ 25))%R.
+Proof. exact closest_point_near_segment. Qed.
+Print Assumptions C03_closest_point_near_segment.
+
+Theorem C03_closest_point_fixes_ends :
+  forall seg1 seg2, pt_le (2 ^ 25) seg1 -> pt_le (2 ^ 25) seg2 ->
+  GetClosestPointOnSegment seg1 seg1 seg2 = seg1 /\ GetClosestPointOnSegment seg2 seg1 seg2 = seg2.
+Proof. intros s1 s2 B1 B2. split; [exact (closest_point_fixes_seg1 s1 s2 B1 B2)|exact (closest_point_fixes_seg2 s1 s2 B1 B2)]. Qed.
+Print Assumptions C03_closest_point_fixes_ends.
+
 (* GetSegmentIntersectPt, default (truncating) variant: for |coordinates| <= 2^52 and ANY two segments, whenever it
    returns true the point lies in the bounding box of the first segment (t is clamped to [0,1], roundings are monotone) *)
 Theorem C03_isect_in_bbox :
